@@ -2,6 +2,7 @@
 # SPDX-License-Identifier: LGPL-3.0-only
 from enum import StrEnum
 
+from rzilcompiler.Transformer.Pures.Bool import Bool
 from rzilcompiler.Transformer.Pures.CompareOp import CompareOp
 from rzilcompiler.Transformer.Pures.Pure import Pure
 from rzilcompiler.Transformer.Pures.PureExec import PureExec
@@ -30,7 +31,7 @@ class BooleanOp(PureExec):
         a = (
             self.ops[0].il_read()
             if (
-                isinstance(self.ops[0], BooleanOp) or isinstance(self.ops[0], CompareOp)
+                isinstance(self.ops[0], (BooleanOp, CompareOp, Bool))
             )
             else f"NON_ZERO({self.ops[0].il_read()})"
         )
@@ -40,7 +41,7 @@ class BooleanOp(PureExec):
         b = (
             self.ops[1].il_read()
             if (
-                isinstance(self.ops[1], BooleanOp) or isinstance(self.ops[1], CompareOp)
+                isinstance(self.ops[1], (BooleanOp, CompareOp, Bool))
             )
             else f"NON_ZERO({self.ops[1].il_read()})"
         )
